@@ -450,11 +450,11 @@ def deliver (token : Str) (upgrade : Bool) (h1 : Headers) (ctxUser : Identity) :
     else
       if transportOK h3 then .forwarded (sendOver false h3) ctxUser else .transportRefused
 
-/-- One request: raw client header lines, the authenticator's answer, the authorizer (the cluster's POLICY: a function of
-    the attributes record it is asked about), the gateway's bearer token.
+/-- One request: raw client header lines, the authenticator's answer, the authorizer the impersonation filter consults
+    (`az`, any function of the attributes record it is asked about), the gateway's bearer token.
     `upgrade`: on the upgrade path only `WrapRequest` is applied (the client-go wrappers are bypassed).
     Order of the filters: `Gen.C02.proxyChain` (authentication, then impersonation, then dispatcher). -/
-def serve (token : Str) (raw : List (Str × Str)) (auth : Option Identity) (az : Attrs → Decision)
+def serveWith (token : Str) (raw : List (Str × Str)) (auth : Option Identity) (az : Attrs → Decision)
     (upgrade : Bool) : Outcome :=
   match parse raw with
   | none => .badRequest
@@ -466,6 +466,68 @@ def serve (token : Str) (raw : List (Str × Str)) (auth : Option Identity) (az :
       | .internalError => .internalError
       | .forbidden => .forbidden
       | .pass h1 ctxUser => deliver token upgrade h1 ctxUser
+
+/-! ## the authorizer the shipped wiring builds
+
+`cmd/kube-gateway/app` `CreateProxyConfig`: `o.Authorization.ApplyTo(&recommendedConfig.Config, clusterController)` →
+`AuthorizerConfig.New` → `NewMultiClusterSubjectAccessReviewAuthorizer`: every check is a SubjectAccessReview (JSON) created
+in the TARGET cluster through the endpoint's client; the filter gets `c.Authorization.Authorizer` (shape facts regenerated).
+The decision cache is C12's subject (switched off in the harness). -/
+
+/-- number of bytes of the valid UTF-8 sequence at the head of `s` (Go's `utf8.DecodeRuneInString`), 0 when there is none -/
+def utf8SeqLen : Str → Nat
+  | [] => 0
+  | b0 :: rest =>
+    let cont (c : UInt8) : Bool := 0x80 ≤ c && c ≤ 0xBF
+    if b0 < 0x80 then 1
+    else match rest with
+      | [] => 0
+      | b1 :: r1 =>
+        if 0xC2 ≤ b0 && b0 ≤ 0xDF then (if cont b1 then 2 else 0)
+        else match r1 with
+          | [] => 0
+          | b2 :: r2 =>
+            let lo1 : UInt8 := if b0 == 0xE0 then 0xA0 else if b0 == 0xF0 then 0x90 else 0x80
+            let hi1 : UInt8 := if b0 == 0xED then 0x9F else if b0 == 0xF4 then 0x8F else 0xBF
+            if 0xE0 ≤ b0 && b0 ≤ 0xEF then (if lo1 ≤ b1 && b1 ≤ hi1 && cont b2 then 3 else 0)
+            else match r2 with
+              | [] => 0
+              | b3 :: _ =>
+                if 0xF0 ≤ b0 && b0 ≤ 0xF4 then (if lo1 ≤ b1 && b1 ≤ hi1 && cont b2 && cont b3 then 4 else 0) else 0
+
+def jsonCarriedAux : Nat → Str → Str
+  | 0, _ => []
+  | _ + 1, [] => []
+  | fuel + 1, b :: rest =>
+    let n := utf8SeqLen (b :: rest)
+    if n = 0 then [0xEF, 0xBF, 0xBD] ++ jsonCarriedAux fuel rest
+    else (b :: rest).take n ++ jsonCarriedAux fuel ((b :: rest).drop n)
+
+/-- a string as JSON carries it (`encoding/json`: every byte that does not start a valid UTF-8 sequence becomes U+FFFD) -/
+def jsonCarried (s : Str) : Str := jsonCarriedAux s.length s
+
+/-- the record as the SubjectAccessReview carries it to the target cluster -/
+def jsonAttrs (a : Attrs) : Attrs :=
+  ⟨jsonCarried a.apiGroup, jsonCarried a.resource, jsonCarried a.subresource, jsonCarried a.ns, jsonCarried a.name⟩
+
+/-- `MultiClusterSubjectAccessReviewAuthorizer.Authorize` for requestor `u` against the target cluster's policy: the review
+    travels through the endpoint's client, whose transport impersonates the requestor (`WrapRequest` again); if that refuses,
+    the answer is `decisionOnError` (deny, with an error); otherwise it is the cluster's answer about the record as JSON
+    carries it. No other case: in particular no requestor (user name, group) is answered locally. -/
+def wiredAuthorizer (u : Identity) (policy : Attrs → Decision) : Attrs → Decision :=
+  fun a => if (wrapRequest [] u).isNone then .error else policy (jsonAttrs a)
+
+/-- the authorizer the filter consults for a request of an authenticated client -/
+def wiredFor (auth : Option Identity) (policy : Attrs → Decision) : Attrs → Decision :=
+  match auth with
+  | some u => wiredAuthorizer u policy
+  | none => policy
+
+/-- One request through the gateway as shipped: `policy` is the TARGET CLUSTER's authorizer (what it answers to a
+    SubjectAccessReview about a record). -/
+def serve (token : Str) (raw : List (Str × Str)) (auth : Option Identity) (policy : Attrs → Decision)
+    (upgrade : Bool) : Outcome :=
+  serveWith token raw auth (wiredFor auth policy) upgrade
 
 /-! ## the upstream's decoder -/
 
